@@ -96,6 +96,27 @@ PROPS = {
         design_ref="DESIGN.md §5 C08",
         assumptions=[],
     ),
+    "C13": dict(
+        units=["noise"],
+        level="proof",
+        level_text="Deductive proof (Verus) over the real text of noise::bytes::Buffer (all 12 methods, against a Seq<u8> window view: "
+                   "push appends exactly min(capacity,len) bytes, take drops a prefix, shift keeps the content and regains the consumed "
+                   "space, prefix/set_prefix/extend/reset, every debug_assert as a proof obligation on every caller) and of the Stream "
+                   "read/write paths poll_read_frame, poll_read_payload, poll_read, poll_flush_frame, poll_flush_payload, poll_write, "
+                   "poll_flush, poll_shutdown: no index out of range, no arithmetic overflow, the transport is never polled with an empty "
+                   "buffer (no false end-of-stream), a frame is handed to the transport completely and in order before the next payload is "
+                   "sealed (wire_out ++ pending == old wire_out ++ old pending), every frame is LE16(n) ++ seal(payload) with n = |payload|+16 "
+                   "and total length <= 65537, the length prefix is never truncated, and a successful flush/shutdown leaves nothing buffered: "
+                   "wire_out == old wire_out ++ old pending frame ++ frame_of(buffered plaintext).",
+        level_note="Trusted: snow (AEAD: tamper/replay => error is snow's property; write_message/read_message length contract), tokio "
+                   "AsyncRead/AsyncWrite poll contracts, pin-projection (Pin::new on Unpin is the identity; self.project() is modelled by a "
+                   "struct of &mut fields), std slice operations behind 7 one-line R-std wrappers whose bodies are the replaced std "
+                   "expressions. Not decided: the reader-side ordering as a ghost sequence (rx_plain == concat of decrypted frames) and "
+                   "cross-endpoint composition; the noise handshake loop is covered under C10 when claimed.",
+        technique="contract-based deductive verification (Verus on extracted real functions; ghost wire sequence on the transport stub)",
+        design_ref="DESIGN.md §5 C13",
+        assumptions=[],
+    ),
 }
 
 NOT_APPLICABLE = {
